@@ -108,12 +108,14 @@ pub fn run_random(args: &[String]) {
     let mut i = 0u64;
     while cases < count {
         i += 1;
-        let n_layers = if i % 7 == 0 { 2 + rng.below(14) } else { 2 + rng.below(4) } as usize;
-        let steps: Vec<u64> = std::iter::once(0).chain((1..n_layers).map(|_| if n_layers > 6 { 1 + rng.below(2) } else { 1 + rng.below(4) })).collect();
-        let log_last = rng.below(4);
-        let log_cosets = 1 + rng.below(4);
+        // the first two instances use the largest legal schedule: 15 layers (14 committed inner layers), steps of 1
+        let maximal = i <= 2;
+        let n_layers = if maximal { 15 } else if i % 7 == 0 { 2 + rng.below(14) } else { 2 + rng.below(4) } as usize;
+        let steps: Vec<u64> = std::iter::once(0).chain((1..n_layers).map(|_| if maximal { 1 } else if n_layers > 6 { 1 + rng.below(2) } else { 1 + rng.below(4) })).collect();
+        let log_last = if maximal { i - 1 } else { rng.below(4) };
+        let log_cosets = if maximal { 1 } else { 1 + rng.below(4) };
         let log_n = steps.iter().sum::<u64>() + log_last + log_cosets;
-        if log_n > max_log { continue; }
+        if log_n > max_log && !maximal { continue; }
         let bound = 1usize << (log_n - log_cosets);
         let deg = match rng.below(4) { 0 => bound, 1 => 1 + rng.below(bound as u64) as usize, _ => bound };
         let coefs: Vec<Felt> = (0..deg).map(|_| rng.felt()).collect();
